@@ -108,6 +108,10 @@ Definition coverage_of (n : nat) (d : list Z) : list Z :=
          if ((v =? Z.of_nat j) || (v + Z.of_nat n =? Z.of_nat j))%Z then (c + acc)%Z else acc) 0%Z uc)
       (seq 0 n).
 
+(* fix 0c57282: negative entries are normalised before counting, so that aliases are counted together *)
+Definition norm_index (n : nat) (d : list Z) : list Z :=
+  map (fun z => if (z <? 0)%Z then (z + Z.of_nat n)%Z else z) d.
+
 Section Alg.
   Variable K : Type.
   Variable keqb : K -> K -> bool.
@@ -397,7 +401,7 @@ Section Alg.
                           match py_nth sh axis with
                           | Some n =>
                               Ok (Some [Prim fresh CDiagonal si si
-                                          (PDiag axis (map inject_Z (coverage_of n d)))])
+                                          (PDiag axis (map inject_Z (coverage_of n (norm_index n d))))])
                           | None => Err IndexError
                           end
                       | Some _ => Err AssertionError
